@@ -5,6 +5,7 @@ Models: `GT.Model.Dtype` (finite decision model of the dtype inference),
 `GT.Model.Rescale` / `GT.Model.Charts` (field-generic formulas).
 -/
 import GT.Model.Dtype
+import GT.Model.DtypeVal
 import GT.Lemmas.Rescale
 import GT.Properties.C01
 
@@ -102,6 +103,45 @@ theorem integer_call_sites_pinned (major : Nat) :
     standardRotationPinned (Lib.repaired major) (.arr .r0 .int64) = .ok .int64 := by
   refine ⟨rfl, rfl, rfl, rfl⟩
 
+/-- **the value does not depend on the packaging**: for every real packaging `p` of the number
+`v` (representable in float32 when a float32 dtype is involved: `f32 v = v`) every computing
+entry point stores exactly `v` — in particular two packagings of the same number give the same
+stored value, whatever their dtypes -/
+theorem packaging_value_independent (f32 : ℚ → ℚ) (v : ℚ) (hv : f32 v = v) (major : Nat)
+    (e : Entry) (he : e.floating = true) (p q : Pack) (hp : p.isRealNumeric = true)
+    (hq : q.isRealNumeric = true) :
+    (∃ dp, entryVal f32 (Lib.repaired major) e p v = .ok (dp, v)) ∧
+    (∃ dq, entryVal f32 (Lib.repaired major) e q v = .ok (dq, v)) := by
+  have key : ∀ p : Pack, p.isRealNumeric = true →
+      ∃ d, entryVal f32 (Lib.repaired major) e p v = .ok (d, v) := by
+    intro p hp
+    have h := real_input_floating major e p he hp
+    unfold entryVal
+    cases hd : entryDtype (Lib.repaired major) e p with
+    | error err => rw [hd] at h; simp [isOkWith] at h
+    | ok d =>
+      rw [hd] at h
+      refine ⟨d, ?_⟩
+      cases d <;> simp [isOkWith, Dt.isFloating] at h
+      · simp [castVal, hv, bind, Except.bind, pure, Except.pure]
+      · simp [castVal, bind, Except.bind, pure, Except.pure]
+  exact ⟨key p hp, key q hq⟩
+
+/-- `utils.array_like` in particular: the same number, whatever the packaging -/
+theorem arrayLike_value (f32 : ℚ → ℚ) (v : ℚ) (hv : f32 v = v) (major : Nat) (p : Pack)
+    (hp : p.isRealNumeric = true) :
+    ∃ d, arrayLikeVal f32 (Lib.repaired major) p v = .ok (d, v) := by
+  have h := (packaging_value_independent f32 v hv major .arrayLike rfl p p hp hp).1
+  simpa [entryVal, arrayLikeVal, entryDtype] using h
+
+/-- what D16 / D17 did to the numbers: written into the integer array the pinned call sites
+allocated, a cosine `0 ≤ v < 1` is truncated to `0` -/
+theorem integer_call_sites_truncate (f32 : ℚ → ℚ) (v : ℚ) (h0 : 0 ≤ v) (h1 : v < 1) :
+    castVal f32 .int64 v = 0 := by
+  simp only [castVal, if_pos h0]
+  have : ⌊v⌋ = 0 := Int.floor_eq_iff.2 ⟨by simpa using h0, by simpa using h1⟩
+  rw [this]; simp
+
 /-! ## rescaling of homogeneous coordinates -/
 
 section generic
@@ -155,6 +195,34 @@ theorem segmentIdeal_smul (hr : IsSqrt r) (x₁ x₂ : Fin (n + 1) → K) (l₁ 
   · exact ⟨E₁, E₂, hE₁, hE₂, Or.inl ⟨hN₁, hN₂⟩⟩
   · exact ⟨E₁, E₂, hE₁, hE₂, Or.inr ⟨hN₁, hN₂⟩⟩
   · exact absurd rfl hne
+
+/-- **the hypothesis `a ≠ 0` of `segmentIdeal_smul` cannot be dropped** (known finding
+`C12-segment-a-zero`).  For the valid segment from `x₁ = (2,1,0)` to `x₂ = (3,1,1)` (both
+timelike, distinct: `0 < disc`) the difference of the representatives is lightlike, `a = 0`;
+the code's `(-b ± √disc) / (2a)` divides by zero (NumPy: NaN; in the model `x / 0 = 0`, so both
+"null vectors" collapse to `x₂`, which is timelike, not null — whatever the root function).
+The same two points with the representative `2·x₁` have `a ≠ 0`: rescaling `x₁` by `1/2` turns a
+well-behaved input into this one. -/
+theorem segment_a_zero_witness (r : ℚ → ℚ) (s : ℚ) :
+    mink (![2, 1, 0] : Fin 3 → ℚ) ![2, 1, 0] < 0 ∧ mink (![3, 1, 1] : Fin 3 → ℚ) ![3, 1, 1] < 0 ∧
+    0 < segDisc (![2, 1, 0] : Fin 3 → ℚ) ![3, 1, 1] ∧
+    segA (![2, 1, 0] : Fin 3 → ℚ) ![3, 1, 1] = 0 ∧
+    segNull r s (![2, 1, 0] : Fin 3 → ℚ) ![3, 1, 1] = ![3, 1, 1] ∧
+    mink (segNull r s (![2, 1, 0] : Fin 3 → ℚ) ![3, 1, 1]) (segNull r s ![2, 1, 0] ![3, 1, 1]) ≠ 0 ∧
+    segA (fun i => (![4, 2, 0] : Fin 3 → ℚ) i * 1) (fun i => (![3, 1, 1] : Fin 3 → ℚ) i * 1) ≠ 0 ∧
+    segA (fun i => (![4, 2, 0] : Fin 3 → ℚ) i * (1 / 2)) (fun i => (![3, 1, 1] : Fin 3 → ℚ) i * 1) = 0 := by
+  have hA : segA (![2, 1, 0] : Fin 3 → ℚ) ![3, 1, 1] = 0 := by
+    simp [segA, mink, dot, Fin.sum_univ_succ, Fin.tail]; norm_num
+  have hN : segNull r s (![2, 1, 0] : Fin 3 → ℚ) ![3, 1, 1] = ![3, 1, 1] := by
+    funext i
+    simp only [segNull, lineComb, segMu, hA, mul_zero, div_zero, zero_mul, sub_zero, one_mul, zero_add]
+  refine ⟨?_, ?_, ?_, hA, hN, ?_, ?_, ?_⟩
+  · simp [mink, dot, Fin.sum_univ_succ, Fin.tail]; norm_num
+  · simp [mink, dot, Fin.sum_univ_succ, Fin.tail]; norm_num
+  · simp [segDisc, segA, segB, segC, mink, dot, Fin.sum_univ_succ, Fin.tail]; norm_num
+  · rw [hN]; simp [mink, dot, Fin.sum_univ_succ, Fin.tail]; norm_num
+  · simp [segA, mink, dot, Fin.sum_univ_succ, Fin.tail]; norm_num
+  · simp [segA, mink, dot, Fin.sum_univ_succ, Fin.tail]; norm_num
 
 /-- centre and radius of the Poincaré circle carrying a geodesic are functions of the
 *projective* ideal endpoints, symmetric in the two (so the unordered pair above suffices) -/
